@@ -57,6 +57,8 @@ type Device struct {
 	Restarts    int
 	gen         int
 	subs        []*devSub
+	refused     map[string]codes.Code // definite refusals by request content (see Set)
+	accepted    map[string]bool       // requests accepted before, by content
 }
 
 // NewDevice starts a fake device.
@@ -152,11 +154,32 @@ func (d *Device) Set(ctx context.Context, r *gnmi.SetRequest) (resp *gnmi.SetRes
 			return
 		}
 		f, has := d.Faults[n]
+		// A definite refusal is a verdict on the request: the same request sent again is refused again with the same
+		// code (a device does not change its mind because the controller failed to record the answer). Transient
+		// answers (Unavailable, Canceled, DeadlineExceeded) are one-shot.
+		reqKey := fmt.Sprint(rec.Ops)
+		if c, again := d.refused[reqKey]; again {
+			delete(d.Faults, n)
+			f, has = DevFault{Kind: "code", Code: c}, true
+			d.k.Probe("dev-refusal-repeated")
+		} else if has && f.Kind == "code" && d.accepted[reqKey] && f.Code != codes.Unavailable && f.Code != codes.Canceled && f.Code != codes.DeadlineExceeded {
+			// ... and a request it has accepted before (sent again because the controller could not record the answer)
+			// is not refused now
+			delete(d.Faults, n)
+			has = false
+			d.k.Probe("dev-refusal-suppressed-accepted-before")
+		}
 		if has && f.Kind == "code" {
 			delete(d.Faults, n)
 			rec.Outcome = "code:" + f.Code.String()
 			d.k.Stat("fault/dev-error/" + f.Code.String())
 			err = status.Error(f.Code, "injected device error")
+			if f.Code != codes.Unavailable && f.Code != codes.Canceled && f.Code != codes.DeadlineExceeded {
+				if d.refused == nil {
+					d.refused = map[string]codes.Code{}
+				}
+				d.refused[reqKey] = f.Code
+			}
 			d.Log = append(d.Log, rec)
 			if d.OnSet != nil {
 				d.OnSet(rec)
@@ -190,6 +213,10 @@ func (d *Device) Set(ctx context.Context, r *gnmi.SetRequest) (resp *gnmi.SetRes
 		d.MaxElect = el
 		rec.Before = d.State.Clone()
 		d.State.ApplyOps(rec.Ops)
+		if d.accepted == nil {
+			d.accepted = map[string]bool{}
+		}
+		d.accepted[reqKey] = true
 		if d.Eff != nil {
 			d.Eff.Add("dev set " + d.Target)
 		}
